@@ -9,7 +9,7 @@ import (
 )
 
 //verif:harness prop=C03 quick=2 thorough=4 merge=concrete timeout=1200
-//verif:bounds GenBankFields.Slice / gts.Slice on a GenBank record of 9 residues: references "(bases A to B; C to D)" (two ranges in either order, incl. origin-spanning order), "(bases E to F)" and a free-text reference, A..F symbolic in 1..9; window [s,e) symbolic; quick: DNA, thorough adds the AA counter word and a circular record
+//verif:bounds GenBankFields.Slice / gts.Slice on a GenBank record of 9 residues: references "(bases A to B; C to D)" (two ranges in either order, incl. origin-spanning order), "(bases E to F)" and a free-text reference, A..F symbolic in 1..9 (the single range also reversed, E > F); window [s,e) symbolic; quick: DNA, thorough adds the AA counter word and a circular record
 func VH_C03_reference_slice() {
 	const L = 9
 	sh := vShard(2 + 2*vTier())
@@ -20,7 +20,7 @@ func VH_C03_reference_slice() {
 	}
 	num := func(name string) int { return vIntIn(name, 1, L) }
 	A, B, C, D, E, F := num("A"), num("B"), num("C"), num("D"), num("E"), num("F")
-	vAssume(vAnd(A <= B, vAnd(C <= D, E <= F)))
+	vAssume(vAnd(A <= B, C <= D)) // E > F: "(bases 5 to 3)" is not a base range; the reference is kept as free text
 	info1 := fmt.Sprintf("(%s %d to %d; %d to %d)", word, A, B, C, D)
 	info2 := fmt.Sprintf("(%s %d to %d)", word, E, F)
 	refs := []Reference{{Number: 1, Info: info1, Authors: "a"}, {Number: 2, Info: "sites", Authors: "b"}, {Number: 3, Info: info2, Authors: "c"}}
@@ -33,7 +33,12 @@ func VH_C03_reference_slice() {
 	s := vIntIn("s", 0, L-1)
 	e := vIntIn("e", 1, L)
 	vAssume(s < e)
-	out, ok := gts.Slice(gb, s, e).(GenBank)
+	var sliced gts.Sequence
+	if vPanics(func() { sliced = gts.Slice(gb, s, e) }) {
+		vAssert("slice-no-panic", false)
+		return
+	}
+	out, ok := sliced.(GenBank)
 	vAssert("still-genbank", ok)
 	if !ok {
 		return
@@ -66,7 +71,9 @@ func VH_C03_reference_slice() {
 		want = append(want, Reference{Info: fmt.Sprintf("(%s %s)", word, parts), Authors: "a"})
 	}
 	want = append(want, Reference{Info: "sites", Authors: "b"})
-	if k3 {
+	if E > F {
+		want = append(want, Reference{Info: info2, Authors: "c"})
+	} else if k3 {
 		h, t := clip(r3)
 		want = append(want, Reference{Info: fmt.Sprintf("(%s %d to %d)", word, h, t), Authors: "c"})
 	}
